@@ -13,7 +13,20 @@ MD = "porepy/grids/md_grid.py"
 
 IT = "porepy/utils/interpolation_tables.py"
 
+TXT = "porepy/utils/txt_io.py"
+FN2 = "porepy/fracs/fracture_network_2d.py"
+FN3 = "porepy/fracs/fracture_network_3d.py"
+FI = "porepy/fracs/fracture_importer.py"
+
 MUTANTS = {
+    "C47": [
+        {"name": "revert_ndmin", "file": TXT, "old": "        ndmin=2,\n", "new": ""},
+        {"name": "csv2d_append_instead_of_truncate", "file": FN2, "old": "        with open(file_name, \"w\") as csv_file:\n            csv_writer = csv.writer(csv_file, delimiter=\",\")\n            if with_header:", "new": "        with open(file_name, \"a\") as csv_file:\n            csv_writer = csv.writer(csv_file, delimiter=\",\")\n            if with_header:"},
+        {"name": "csv3d_ravel_order_C", "file": FN3, "old": "                csv_writer.writerow(f.pts.ravel(order=\"F\"))", "new": "                csv_writer.writerow(f.pts.ravel(order=\"C\"))"},
+        {"name": "csv3d_domain_min_max_swapped", "file": FI, "old": "                        \"ymin\": data[1],\n                        \"ymax\": data[4],", "new": "                        \"ymin\": data[1],\n                        \"ymax\": data[5],"},
+        {"name": "txt_header_order_reversed", "file": TXT, "old": "    names = header.split()", "new": "    names = header.split()[::-1]"},
+        {"name": "csv2d_endpoint_columns_swapped", "file": FN2, "old": "                data.extend(self._pts[:, edge[1]])", "new": "                data.extend(self._pts[::-1, edge[1]])"},
+    ],
     "C41": [
         {"name": "cache_coordinates_appended_reversed", "file": IT, "old": "            self._pt = np.hstack((self._pt, coord))", "new": "            self._pt = np.hstack((self._pt, coord[:, ::-1]))"},
         {"name": "gradient_does_not_fill_cache", "file": IT,
